@@ -144,10 +144,11 @@ def run(repo, harnesses, tier, workroot):
                 "trusted": ["Kani/CBMC: rustc MIR -> goto translation and the SAT back end"],
                 "note": "harness source generated from spec/tables.json (same table as the Verus-side spec functions)"}
     finally:
-        fcntl.flock(lock, fcntl.LOCK_UN)
-        lock.close()
+        # remove the scratch copy BEFORE releasing the lock (the next holder starts by syncing into it)
         if os.environ.get("VERIF_KANI_KEEP_SCRATCH") != "1":
             shutil.rmtree(SCRATCH, ignore_errors=True)
+        fcntl.flock(lock, fcntl.LOCK_UN)
+        lock.close()
 
 
 if __name__ == "__main__":
